@@ -66,6 +66,21 @@ pub fn run(seed: u64, n: usize, driver: &str, out: &str) -> serde_json::Value {
                 diffs.push(json!({"what": "alpha_unicode_split", "text_hex": hex(t.as_bytes()), "real": real_s, "model": model}));
             }
         }
+        // characters_popularity_compare (strsim::jaro as f32) against Model/Jaro32.v, on the text's own characters
+        {
+            let lang = *rng.pick(&pool);
+            let sample: String = match rng.below(3) {
+                0 => t.chars().filter(|c| c.is_alphabetic()).take(rng.range(0, 60)).collect(),
+                1 => { let tbl = hooks::languages_table(); let (_, a, _, _) = rng.pick(&tbl); let mut v: Vec<char> = a.chars().collect(); let k = rng.below(v.len().max(1)); v.rotate_left(k); v.truncate(rng.range(0, 40)); v.into_iter().collect() }
+                _ => t.chars().rev().take(rng.range(0, 30)).collect(),
+            };
+            evals += 1;
+            let real = match hooks::characters_popularity_compare(lang, &sample) { Ok(x) => format!("R {}", fbits(x)), Err(_) => "R ERR".to_string() };
+            let model = drv.decode_model(&format!("POPM {:?} {}", lang, hex(sample.as_bytes())));
+            if model != real {
+                diffs.push(json!({"what": "characters_popularity_compare (jaro)", "language": format!("{:?}", lang), "chars_hex": hex(sample.as_bytes()), "real": real, "model": model}));
+            }
+        }
         let thr = *rng.pick(&thrs);
         let include: Vec<&'static Language> = match rng.below(6) {
             0 => vec![unknown],
